@@ -1,6 +1,7 @@
 import InjModel.Model.Machine
 import InjModel.Model.Alloc
 import InjModel.Generated.Layout
+import InjModel.Model.Panic
 import Driver.Util
 import Driver.Arm
 /-!
@@ -73,6 +74,8 @@ structure HSt where
   keys : List String := []
   tags : List String := []
   installs : Nat := 0
+  /-- counted installations of this lifetime whose expectation cannot be met (`times: 1000000`) -/
+  unmet : Nat := 0
 
 def HSt.disagree (s : HSt) (w : String) : HSt :=
   if s.agree then { s with agree := false, why := w } else s
@@ -203,7 +206,7 @@ def doInstall (s : HSt) (hdr obs : List String) : HSt := Id.run do
         let mcanon := aevs.map allocEvCanon ++ newEvs.filterMap modelEvCanon
         if mcanon != evs.map Ev.canon then
           s := s.disagree ("install:events model=" ++ String.intercalate "," (mcanon.drop (mcanon.length - 4)))
-        s := { s with ms := ms', latest := (ti, b) :: s.latest }
+        s := { s with ms := ms', latest := (ti, b) :: s.latest, unmet := s.unmet + (if kind == "x5" then 1 else 0) }
         let g := ms'.guards.getLast?.getD { addr := 0, saved := [], patchLen := 0, jit := 0, jitLen := 0 }
         let gs := hex g.addr ++ ":" ++ toString g.patchLen ++ ":" ++ hex g.jit ++ ":" ++ toString g.jitLen ++ ":" ++ hexBytes g.saved
         if kv obs "g" != some gs then s := s.disagree ("install:guard model=" ++ gs)
@@ -239,16 +242,25 @@ def doInstall (s : HSt) (hdr obs : List String) : HSt := Id.run do
   | none => s := s.disagree "install:empty"
   return s
 
-def doDrop (s : HSt) (obs : List String) (unwinding : Bool) : HSt := Id.run do
+def doDrop (s : HSt) (obs : List String) (unwinding : Bool) (verifPanicked : Bool) : HSt := Id.run do
   let mut s := s
   if unwinding then s := s.tag "unwind"
+  if s.unmet > 0 then s := s.tag "unmet"
   let evs := ((kv obs "ev").bind parseEvs).getD []
   let before := s.ms
-  let ms' := dropInjector dropOrder s.ms
+  -- two-phase release as the language prescribes, along the `Drop` body and field order read
+  -- from the source, with the pending expectations of this lifetime
+  let ex := Panic.scopeExit2 dropOrder Generated.Layout.verifierChecksPanicking Generated.Layout.injectorDropBody
+    Generated.Layout.injectorFields ⟨s.ms, List.replicate s.unmet (1000000, 0), unwinding⟩
+  let ms' := ex.ms
+  if ex.abort then s := s.disagree "drop:model-aborts"
+  if (ex.newPanics > 0) != verifPanicked then s := s.disagree "drop:verification-panic"
+  -- C06/C02: at a normal scope exit an unmet expectation must be reported, and only then
+  if !unwinding && (s.unmet > 0) != verifPanicked then s := s.fail "c06.exit-verdict"
   let newEvs := (ms'.log.take (ms'.log.length - before.log.length)).reverse
   let mcanon := newEvs.filterMap modelEvCanon
   if mcanon != evs.map Ev.canon then s := s.disagree "drop:events"
-  s := { s with ms := ms', latest := [] }
+  s := { s with ms := ms', latest := [], unmet := 0 }
   s := checkAfter s obs "drop"
   -- C02: byte-for-byte restoration
   match (kv obs "sl").bind parseSlots with
@@ -294,8 +306,9 @@ def handleHist (toks : List String) : Verdict := Id.run do
           if !s.ms.guards.isEmpty then s := s.disagree "new:guards-left"
           s := s.tag "life"
         else if t == "I" then s := doInstall s (t :: rest.take 4) (rest.drop 4)
-        else if t == "D" then s := doDrop s rest false
-        else if t == "Dp" then s := doDrop s rest true
+        else if t == "D" then s := doDrop s rest false false
+        else if t == "Dp" then s := doDrop s rest true false
+        else if t == "Dv" then s := doDrop s rest false true
         else if t == "CRASH" then
           s := s.tag "crash"
           s := s.fail (if s.marker == "@I" then "c01.crash-during-install" else "c02.crash-after-drop")
